@@ -534,6 +534,17 @@ func (sl *Slicer) walkTuple(t ssa.Value, idx int, c *sctx, path string, sliced b
 		}
 		return
 	}
+	if callee != nil && FnPkgPath(callee) == "encoding/binary" && strings.HasPrefix(callee.Name(), "AppendUint") {
+		// AppendUintN(buf, v) = append(buf, <N-bit big-endian v>...): the same encoder as PutUintN
+		args := call.Call.Args
+		if len(args) == 3 {
+			sl.walk(args[1], c, path, sliced)
+			sl.trail = append(sl.trail, "binary.Put"+strings.TrimPrefix(callee.Name(), "Append"))
+			sl.walk(args[2], c, path, sliced)
+			sl.trail = sl.trail[:len(sl.trail)-1]
+			return
+		}
+	}
 	if callee != nil && FnPkgPath(callee) == "encoding/binary" && strings.HasPrefix(callee.Name(), "Uint") {
 		// decoding primitive: record it on the trail and continue into the bytes it reads
 		sl.trail = append(sl.trail, "binary."+callee.Name())
